@@ -19,7 +19,35 @@ LEDGER_RULE = ("ledger stream: per case a fresh canister (network in {regtest x2
                "header ranges up to tip+2, fees, bookkeeping snapshot, stable digest) with the specification lines ledgerat/bestat/cutat/sumat. "
                "A case is non-trivial if it pushed >= 3 blocks; distinct by the hash of (network, threshold, mode, parent choices, budgets).")
 
+SYNC_RULE = ("sync stream: per case a fresh regtest canister (threshold 1-4, default or random fee table, manual async mode), then 12-45 (quick) / 30-120 (thorough) "
+             "random messages: heartbeats with unlimited or 0-9 step budgets (suspended at the get_successors await; further heartbeats overlap), scripted replies of the block "
+             "source (complete with 0-3 mined transaction-valid blocks on random parents plus bad elements at random positions: garbage, truncated, duplicate, orphan/redelivered, "
+             "bad merkle root / duplicated last transaction, old timestamp, wrong bits, stable-only parent; partial replies split into 1+k pages, k in {0,1,2,3,5}; rejects; "
+             "announced headers incl. garbage/duplicate/invalid), pre/post_upgrade with or without a threshold argument, set_config flips, gated endpoint calls with chosen "
+             "attached cycles and instruction counts, send_transaction with exact/extended/truncated/bit-flipped/garbage payloads, and the ledger stream's query batch. "
+             "A case is distinct by the hash of its message kinds and budgets.")
+
 PROPS = {
+    "C14": {
+        "streams": [{"name": "sync", "quick": 320, "thorough": 3200}],
+        "rule": SYNC_RULE,
+        "explanation": "theorems: guard passes iff (access enabled, network matches, sync rule); precedence of refusals; refused calls return no state and charge nothing; send_transaction exempt; "
+                       "synced iff highest announced header <= best height + SYNCED_THRESHOLD (generated constant pinned to 2). Tie: every endpoint is called under random flag/network/sync states.",
+        "technique": "Lean 4 theorems (decision logic of the guards stated outright over the endpoint model) + differential correspondence of gated calls",
+        "level_text": "Machine-checked decision logic for all states/requests; the endpoints' composition (guards, cycles, answer) is modelled in Model/Endpoints.lean and compared call by call with the canister.",
+        "level_note": "Trusted: Lean kernel, harness (verif_hooks for cycles/instruction counter), translator (SYNCED_THRESHOLD). The announced-header bookkeeping over histories is compared by the snapshot lines (C20) and through `maxnext`; get_config/get_blockchain_info/metrics have no guard parameter in the model by construction.",
+        "assumptions": ["native build: a panic is the observable 'trap'; is_watchdog_caller/controller checks of set_config are wasm-only and not modelled"],
+    },
+    "C16": {
+        "streams": [{"name": "sync", "quick": 320, "thorough": 3200}],
+        "rule": SYNC_RULE,
+        "explanation": "theorems: charge formulas (metered/flat/send), refusal below maximum before any charge, result <= maximum, query variants accept 0, and from the regenerated tables: "
+                       "client constants >= canister default maxima for all three networks and all payload lengths.",
+        "technique": "Lean 4 theorems over the charging model + generated-table theorem re-proved against the Rust sources on every run + differential correspondence of accepted cycles",
+        "level_text": "Machine-checked formulas for all fee configurations / cycles / instruction counts; the client-vs-canister table theorem is regenerated from interface/src/lib.rs and ic-cdk-bitcoin-canister/src/lib.rs each run.",
+        "level_note": "Trusted: Lean kernel, translator regexes, harness hooks (mock cycles balance, available-cycles override, instruction counter). base <= maximum is a side condition (holds for the default tables: proved); base > maximum underflows (panic natively, wrap in wasm release) and is outside the modelled domain.",
+        "assumptions": ["the native mock of msg_cycles_available does not decrease after msg_cycles_accept; on the IC it does, which cannot matter because fee <= maximum - base"],
+    },
     "C02": {
         "streams": [{"name": "ledger", "quick": 160, "thorough": 1600}],
         "rule": LEDGER_RULE,
